@@ -329,7 +329,7 @@ fn case(rng: &mut Rng, ctx: &mut Ctx, c: Cfg, rep: u64) {
                 let mut client = VerifClient::new(ch);
                 // repetition 0 is a unary call; later repetitions use any of the four shapes (the
                 // verified peer must be visible to every kind of handler)
-                let spec = crate::svc::CallSpec { id: "tls".into(), shape: call_shape, req_msgs: vec![Msg { data: vec![9; 40], seq: 7, tag: "tls".into() }, Msg { data: vec![8; 4], seq: 8, tag: "tls".into() }], req_meta: vec![], req_pend: vec![], req_gaps_ms: vec![], timeout: None };
+                let spec = crate::svc::CallSpec { id: "tls".into(), shape: call_shape, req_msgs: vec![Msg { data: vec![9; 40], seq: 7, tag: "tls".into() }, Msg { data: vec![8; 4], seq: 8, tag: "tls".into() }], req_meta: vec![], req_pend: vec![], req_gaps_ms: vec![], timeout: None, pingpong: None };
                 match tokio::time::timeout(Duration::from_secs(60), crate::svc::do_call(&mut client, &spec, None)).await {
                     Err(_) => return Err("call did not resolve within 60 virtual seconds".to_string()),
                     Ok(view) => match (&view.call_err, &view.end) {
